@@ -433,6 +433,18 @@ def conversion_coherence(case):
             bad.append(('C08', 'after conversion %d (convert_variable) the model answers differently from a freshly built model '
                         'with the same variables and equations: %s (current %r, fresh %r)'
                         % (j, ', '.join(diff), co[diff[0]], fo[diff[0]]), {'conv': j, 'differs': diff}))
+        # C10: get_value of every variable does not depend on how the model was reached
+        for x in m.variables():
+            def gv(mm, xx):
+                try:
+                    return round(float(mm.get_value(xx)), 9)
+                except Exception:
+                    return 'raises'      # which exception comes first depends on set iteration order
+            a, b = gv(m, x), gv(f, mp[x])
+            if a != b and not (isinstance(a, float) and isinstance(b, float) and abs(a - b) <= 1e-9 * (1 + abs(a))):
+                bad.append(('C10', 'after conversion %d get_value(%s) is %r, but %r in a freshly built model with the same variables '
+                            'and equations' % (j, x.name, a, b), {'conv': j}))
+                break
         if len(bad) > 4:
             break
     return bad
